@@ -142,6 +142,12 @@ def r20c(ctx):
             same = (x == y and x[0] == 'local' and bool(polls) and len(srcs) >= 1
                     and all(flow.mentions(se, lambda z: z[0] == 'field' and z[2] == 'fut') for (_, _, se) in srcs))     # (poll is transparent: the polled future stands for its output)
         ctx.check(same, 'R20c', fn, 'complete.arg', a.loc(comps[0]) if comps else '-', 'the value handed to complete is the value returned in Poll::Ready (%s)' % flow.show(e[3][0][1]))
+    # a `?` in poll returns Ready(Err(..)) as well: it must not leave before the outcome was handed to the waiters
+    for (b, si, k, e) in a.ret_sites():
+        if k == 'err':
+            ctx.check(bool(stores) and bool(comps) and a.cfg.must_pass(b, via_blocks=stores) and a.cfg.must_pass(b, via_blocks=comps), 'R20c', fn, 'early Ready', a.loc(b, si),
+                      'an early return of the owner task (`?`) comes after got_response.store(true) and Call::complete',
+                      'the owner task can return Ready(Err(..)) through `?` before marking got_response and completing the call: its drop handler then tells every waiter OwnerPanicked instead of the task\'s error')
     if stores and comps:
         ctx.check(a.cfg.must_pass(comps[0], via_blocks=stores), 'R20c', fn, 'store<complete', a.loc(comps[0]), 'got_response is set before complete (a panic inside complete cannot double-complete)')
     # drop handler
